@@ -83,6 +83,10 @@ func init() {
 		"html/template.JSEscapeString":    func(ex *Exec, a []Val) Val { return ex.jsEscape(a[0].(Str)) },
 		"text/template.JSEscapeString":    func(ex *Exec, a []Val) Val { return ex.jsEscape(a[0].(Str)) },
 		"regexp.Compile":                  mRegexpCompile,
+		"sort.Slice":                      mSortSlice,
+		"sort.SliceStable":                mSortSlice,
+		"sort.Strings":                    mSortStrings,
+		"sort.Ints":                       mSortInts,
 		"(*regexp.Regexp).MatchString":    mRegexpMatchString,
 		"unicode/utf8.RuneCountInString":  mRuneCount,
 		"unicode/utf8.ValidString":        nil,
@@ -161,6 +165,68 @@ func init() {
 			return nil
 		},
 		"Names": func(ex *Exec, a []Val) Val { return Slice{} },
+		"Freeze": func(ex *Exec, a []Val) Val {
+			if ex.frozenCells == nil {
+				ex.frozenCells = map[*Val]bool{}
+				ex.frozen = map[*MapObj]bool{}
+			}
+			ex.freeze(a[0], 0)
+			return nil
+		},
+		"CheckFrozen": func(ex *Exec, a []Val) Val { return nil },
+	}
+}
+
+// freeze marks every heap cell reachable from v read-only (vrt.Freeze).
+func (ex *Exec) freeze(v Val, depth int) {
+	if depth > 200 {
+		return
+	}
+	switch x := v.(type) {
+	case Iface:
+		ex.freeze(x.V, depth+1)
+	case Ptr:
+		if x.P == nil || ex.frozenCells[x.P] {
+			return
+		}
+		ex.frozenCells[x.P] = true
+		ex.freezeCell(x.P, depth+1)
+	case Struct:
+		for i := range x {
+			ex.frozenCells[&x[i]] = true
+			ex.freezeCell(&x[i], depth+1)
+		}
+	case Slice:
+		for i := 0; i < x.Len; i++ {
+			c := x.at(i)
+			if !ex.frozenCells[c] {
+				ex.frozenCells[c] = true
+				ex.freezeCell(c, depth+1)
+			}
+		}
+	case *MapObj:
+		if x == nil || ex.frozen[x] {
+			return
+		}
+		ex.frozen[x] = true
+		for i := range x.K {
+			ex.freeze(x.K[i], depth+1)
+			ex.freeze(x.V[i], depth+1)
+		}
+	}
+}
+
+func (ex *Exec) freezeCell(c *Val, depth int) {
+	switch x := (*c).(type) {
+	case Struct:
+		for i := range x {
+			if !ex.frozenCells[&x[i]] {
+				ex.frozenCells[&x[i]] = true
+				ex.freezeCell(&x[i], depth+1)
+			}
+		}
+	default:
+		ex.freeze(x, depth)
 	}
 }
 
@@ -1238,6 +1304,54 @@ func (ex *Exec) jsEscape(s Str) Str {
 		out = append(out, b)
 	}
 	return Str{B: out}
+}
+
+// ---------------------------------------------------------------- sort (stable insertion sort, in place)
+
+func (ex *Exec) sortInPlace(sl Slice, less func(i, j int) bool) {
+	for i := 1; i < sl.Len; i++ {
+		for j := i; j > 0; j-- {
+			if !less(j, j-1) {
+				break
+			}
+			a, b := sl.at(j), sl.at(j-1)
+			ex.checkFrozenPtr(a)
+			ex.checkFrozenPtr(b)
+			*a, *b = *b, *a
+		}
+	}
+}
+
+func mSortSlice(ex *Exec, args []Val) Val {
+	ifc, ok := args[0].(Iface)
+	if !ok {
+		ex.gopanic("reflect", "reflect: call of Swapper on zero Value")
+	}
+	sl, ok := ifc.V.(Slice)
+	if !ok {
+		ex.gopanic("reflect", "reflect: call of Swapper on non-slice Value")
+	}
+	cl := args[1].(Closure)
+	ex.sortInPlace(sl, func(i, j int) bool {
+		return ex.branch(ex.callClosure(cl, []Val{goInt(i), goInt(j)}).(Bool))
+	})
+	return nil
+}
+
+func mSortStrings(ex *Exec, args []Val) Val {
+	sl, _ := args[0].(Slice)
+	ex.sortInPlace(sl, func(i, j int) bool {
+		return ex.branch(ex.strCmp(token.LSS, (*sl.at(i)).(Str), (*sl.at(j)).(Str)).(Bool))
+	})
+	return nil
+}
+
+func mSortInts(ex *Exec, args []Val) Val {
+	sl, _ := args[0].(Slice)
+	ex.sortInPlace(sl, func(i, j int) bool {
+		return ex.branch(ex.intBinop(token.LSS, (*sl.at(i)).(Int), (*sl.at(j)).(Int)).(Bool))
+	})
+	return nil
 }
 
 // ---------------------------------------------------------------- regexp (concrete only)
